@@ -1,6 +1,7 @@
 (* driver for the SM model (toy instance).
    cfg: <property C32|C33|C34|C35> <legacy|lesc|both|none> <none|yesno|keyboard> <none|display> <oob0|oob1> <bond0|bond1> <sy|sn|as>
    ops: in <hex> | out | yes | no | passkey <n> | enc <0|1> | key <ediv> <rand> | status | reset <a>
+        | bond <a> <ediv> <rand> <kb>   (pre-load the bond data base: peer a, key kb x 16)
    outputs: <hex|-> [disp=<n>] [yn] [bond=<hex>:<rand>:<ediv>] | <hex>|none | <local> <link> | - | nopending | FAULT | SKIPPED *)
 let dummy_cfg = { c_var = MNone; c_inp = InNone; c_outp = OutNone; c_oob = false; c_bond = false; c_yn = Async; c_legacy_oob = legacy_oob_switch }
 let cfg = ref dummy_cfg
@@ -28,6 +29,7 @@ let parse_op l = match words l with
   | ["key"; e; r] -> Key (num e, num r)
   | ["status"] -> Status
   | ["reset"; a] -> Reset (num a)
+  | ["bond"; a; e; r; k] -> Bond (num a, num e, num r, num k)
   | _ -> failwith ("bad op: " ^ l)
 let status_name n = match int_of_n n with 0 -> "none" | 1 -> "unauth" | 2 -> "auth" | 3 -> "authsc" | _ -> "?"
 let status_of = function "none" -> Some 0 | "unauth" -> Some 1 | "auth" -> Some 2 | "authsc" -> Some 3 | _ -> None
